@@ -185,7 +185,10 @@ func runC06(c *Ctx) {
 	r.Rule("R7", "the wait that precedes DISCONNECTED terminates as far as accounting goes: WaitGroup.Add constants equal the member spawns on every path and every member goroutine calls Done exactly once on each of its exits (a missed Done means DISCONNECTED is never delivered, a double Done panics)")
 	funcs := c.clientFuncs()
 	ls := c.ComputeLocksets(funcs)
-	const mu = "client.Conn.mu"
+	mu := "client.Conn.mu"
+	if a.Mu != nil {
+		mu = "client.Conn." + a.Mu.Name()
+	}
 
 	// ---- R1
 	nReg := 0
